@@ -282,6 +282,14 @@ def _run_main(ctx):
                               "seed": ctx.rng.randrange(2 ** 31), "rho": 1.0, "rho_update": True,
                               "unconditional": False, "grid_lambda": lk, "grid_sched": sched})
     if replay is None:
+        # DEGENERATE covariances with every penalty form: the exactly-zero matrix (what a one-window cluster, or a cluster of
+        # identical windows, hands the solver) and a one-hot matrix; a closed form "for the trivial case" has to honour the
+        # block-Toeplitz tying like the iteration does
+        for lk in ("scalar", "const-matrix", "matrix", "matrix"):
+            for ck in ("zero", "one-hot"):
+                probs.append({"problem": True, "N": ctx.rng.choice([1, 2, 2, 3]), "W": ctx.rng.choice([2, 3, 4]),
+                              "seed": ctx.rng.randrange(2 ** 31), "rho": 1.0, "rho_update": False, "unconditional": False,
+                              "degenerate_cov": ck, "degenerate_lambda": lk})
         # sizes beyond every small-integer boundary: N*W >= 256 makes the compressed vector longer than 2^15, the row
         # offsets exceed 2^15 and the position lists of a class are hundreds long (a narrow index or counter type, a
         # table sized for "ordinary" problems show here and nowhere below); rho = 1, spectrum in [0.25, 4]: must stop
@@ -307,6 +315,22 @@ def _run_main(ctx):
             kind, S = gen_psd(r, n)
             lam_kind, lam = gen_lambda(r, n, N, W)
             rho = c["rho"]
+            if c.get("degenerate_cov"):
+                S = np.zeros((n, n))
+                if c["degenerate_cov"] == "one-hot":
+                    S[r.randrange(n), r.randrange(n)] = 0.0
+                    j_ = r.randrange(n)
+                    S[j_, j_] = 1.5
+                kind = "degenerate:" + c["degenerate_cov"]
+                rs_d = np.random.RandomState(c["seed"] % 2 ** 31)
+                if c["degenerate_lambda"] == "scalar":
+                    lam_kind, lam = "scalar", 0.3
+                elif c["degenerate_lambda"] == "const-matrix":
+                    lam_kind, lam = "const-matrix", np.full((n, n), 0.3)
+                else:
+                    Md = rs_d.uniform(0.2, 1.5, size=(n, n))
+                    lam_kind, lam = "matrix", (Md + Md.T) / 2
+                ctx.count("degenerate_covariance_problems")
             cb = (lambda rho_, rp, tp, rd, td: rho_ * 2 if rp > 10 * rd else (rho_ / 2 if rd > 10 * rp else rho_)) if c["rho_update"] else None
             if c.get("grid_lambda"):
                 rs_g = np.random.RandomState(c["seed"] % 2 ** 31)
@@ -370,7 +394,14 @@ def _run_main(ctx):
                               c, {"site": "unconditional-convergence"})
             if stopped:
                 theta = mc.reinflate_matrix(res.theta)
-                tol_p, tol_d, rho_f = calls[-1][1], calls[-1][2], calls[-1][3]
+                if calls:
+                    tol_p, tol_d, rho_f = calls[-1][1], calls[-1][2], calls[-1][3]
+                else:
+                    # returned without ever consulting the stopping rule: held to the tolerances the rule would have used
+                    # on the returned vector (absolute 1e-6, relative 1e-6, the code's 1e-4 slack)
+                    xv_ = np.asarray(res.theta, dtype=float)
+                    tol_p = tol_d = math.sqrt(xv_.size) * 1e-6 + 1e-4 + 1e-6 * float(np.linalg.norm(xv_))
+                    rho_f = float(rho)
                 bad = None
                 if not np.array_equal(theta, theta.T) or not np.all(np.isfinite(theta)):
                     bad = "not symmetric / not finite"
